@@ -25,28 +25,30 @@ retain_grads__ = False
 class no_grad:
     
     def __init__(self) -> None:
-        self.prev = gradient__
+        self.prev = [] # modes in force at each (possibly nested) entry of this context object
     
     def __enter__(self):
         global gradient__
+        self.prev.append(gradient__)
         gradient__ = False
         
     def __exit__(self, exc_type, exc_val, exc_tb):
         global gradient__
-        gradient__ = self.prev
+        gradient__ = self.prev.pop()
         
 
 class retain_grads:
     def __init__(self) -> None:
-        self.prev = retain_grads__
+        self.prev = [] # modes in force at each (possibly nested) entry of this context object
     
     def __enter__(self):
         global retain_grads__
+        self.prev.append(retain_grads__)
         retain_grads__ = True
         
     def __exit__(self, exc_type, exc_val, exc_tb):
         global retain_grads__
-        retain_grads__ = self.prev
+        retain_grads__ = self.prev.pop()
     
 
 # ****************************
